@@ -372,6 +372,53 @@ func main() {
 		checkOne(c, b, path(c, nSix), open)
 	})
 	// MultiLineString and the generic entry point agree with LineString
+	// long lines: tens of vertices (look-ahead windows, block skipping and reused buffers only come into play
+	// there). Families on the 7x7 grid around box [2,4]^2, each judged segment by segment with the same exact reference.
+	longN := []int{15, 16, 17, 18, 20, 33, 40}
+	r.Explore("long-lines", fmt.Sprintf("box [2,4]^2 x 6 families (a crossing followed / preceded by a far tail, crossings separated by far detours, a zigzag across the box, a tail that hugs the box, a spiral into the box) x tail lengths %v x closed / open", longN), mc.Opts{MaxDev: -1, Split: 2}, func(c *mc.Ctx) {
+		fam := c.Choose(6)
+		k := longN[c.Choose(len(longN))]
+		open := c.Bool()
+		far := func(i int) orb.Point { return orb.Point{5 + float64(i%2), 5 + float64(i/2%2)} }        // stays right of and above the box
+		hug := func(i int) orb.Point { return orb.Point{float64([]int{5, 5, 4, 5}[i%4]), float64(i % 7)} } // runs along the right side, touching it
+		var in orb.LineString
+		switch fam {
+		case 0: // crossing, then a far tail
+			in = orb.LineString{{0, 3}, {6, 3}}
+			for i := 0; i < k; i++ {
+				in = append(in, far(i))
+			}
+		case 1: // far tail, then the crossing
+			for i := 0; i < k; i++ {
+				in = append(in, far(i))
+			}
+			in = append(in, orb.Point{6, 3}, orb.Point{0, 3})
+		case 2: // crossings separated by far detours
+			for rep := 0; rep < 3; rep++ {
+				in = append(in, orb.Point{0, float64(2 + rep)}, orb.Point{6, float64(2 + rep)})
+				for i := 0; i < k; i++ {
+					in = append(in, far(i))
+				}
+			}
+		case 3: // zigzag: every segment crosses the box
+			for i := 0; i < k+2; i++ {
+				in = append(in, orb.Point{float64(i % 2 * 6), 1 + float64(i%5)})
+			}
+		case 4: // crossing, then a tail that hugs the right side
+			in = orb.LineString{{0, 3}, {6, 3}}
+			for i := 0; i < k; i++ {
+				in = append(in, hug(i))
+			}
+		case 5: // a spiral from outside into the box
+			for i := 0; i < k+2; i++ { // grid points only (the exact reference is tabulated for the 7x7 grid)
+				r := math.Max(0, 3-float64(i/4))
+				q := [][2]float64{{1, 0}, {0, 1}, {-1, 0}, {0, -1}}[i%4]
+				in = append(in, orb.Point{3 + r*q[0], 3 + r*q[1]})
+			}
+		}
+		checkOne(c, center, in, open)
+		c.NonTrivial()
+	})
 	r.Explore("multi-and-generic", "pairs of 2..3-vertex paths through clip.MultiLineString and clip.Geometry", mc.Opts{MaxDev: -1, Split: 3}, func(c *mc.Ctx) {
 		open := c.Bool()
 		a := make(orb.LineString, 2)
